@@ -319,12 +319,12 @@ theorem K_commit (H : HashFn) (w : World) (idx : List Entry) (id data : Bytes) (
 /-! ### per command -/
 
 /-- further input conditions of one step: no collision for the blobs `add` may store; the new commit's `parent` lines
-    read back as HEAD's commit -/
+    read back as stored commits (HEAD's commit) -/
 def StepOK3 (H : HashFn) (w : World) (i : Inv) : Prop :=
   match i.cmd with
   | .add _ => BlobsFit H w (w.files.map (·.2))
   | .commit _ => ∀ l id data, load H w = some l → commitObject H w i = some (id, data) →
-      ∀ c, Commit.parse data = some c → ∀ p ∈ c.parents, ∃ hc, l.headCommit = some (p, hc)
+      ∀ c, Commit.parse data = some c → ∀ p ∈ c.parents, (commitAt H w p).isSome = true
   | _ => True
 
 theorem blobsFit_sub (H : HashFn) (w : World) (ds ds' : List Bytes) (hsub : ∀ d ∈ ds', d ∈ ds) (h : BlobsFit H w ds) : BlobsFit H w ds' :=
@@ -462,13 +462,11 @@ theorem K_trees (H : HashFn) (w : World) (idx : List Entry) (hj : J H w) (hk : K
 
 theorem commitWrite_K (H) (w l id data msg tz ts) (hl : load H w = some l) (hj : J H w) (hk : K H w) (hid : id = Obj.id H .commit data)
     (hsm : Small (writeTree H l.idx).writes) (hok : CommitOK H w l.idx id data)
-    (hpar : ∀ c, Commit.parse data = some c → ∀ p ∈ c.parents, ∃ hc, l.headCommit = some (p, hc)) :
+    (hpar : ∀ c, Commit.parse data = some c → ∀ p ∈ c.parents, (commitAt H w p).isSome = true) :
     K H (commitWrite H w l id data msg tz ts).1 := by
   have hj1 := snapsGood_commit H w l.idx id data hid (loaded_idx_goodE H w l hl hj.1) hsm hok hj.2
   have hk1 := K_commit H w l.idx id data hid (loaded_idx_goodE H w l hl hj.1) hsm hok hj.2 hk (loaded_idx_blobs H w l hl hk)
-    (fun c hc p hp => by
-      obtain ⟨hcm, hh⟩ := hpar c hc p hp
-      rw [(load_headCommit H w l hl p hcm hh).1]; rfl)
+    hpar
   have hrest : ∀ w' : World, w'.objs = (putObj (putObjs w (writeTree H l.idx).writes.reverse) id (Obj.encode .commit data)).objs →
       w'.index = (putObj (putObjs w (writeTree H l.idx).writes.reverse) id (Obj.encode .commit data)).index → K H w' :=
     fun w' ho hi => K_objs_eq H _ w' hj1 ho (fun es he => by rw [hi] at he; exact allBlobs_objs_eq H _ w' ho (hk1.index es he)) hk1
